@@ -44,7 +44,7 @@ VIS_MEMBERS = {"full": "FULL", "most": "MOST", "partial": "PARTIAL", "none": "NO
 VIS_ALIASES = {"v0-40": "NONE", "v40-60": "PARTIAL", "v60-80": "MOST", "v80-100": "FULL"}
 SENSOR_CHOICES = [("CAM_FRONT", "camera"), ("RADAR_FRONT", "radar"), ("CAM_BACK", "camera"), ("RADAR_BACK", "radar"),
                   ("cam_front_left", "camera")]
-STEPS_US = [100000, 500000, 500000, 1000000, 1000000, 1575000, 3150000, 3149999, 3150001, 50000, 2650000, 650000]
+STEPS_US = [100000, 500000, 500000, 1000000, 1000000, 1575000, 3150000, 3149999, 3150001, 50000, 2650000, 650000, 1]
 
 
 # ------------------------------------------------------------------------------------------------
@@ -76,7 +76,7 @@ def _vec(rng, lim=2048, zlim=64):
     return [rng.randint(-lim, lim), rng.randint(-lim, lim), rng.randint(-zlim, zlim)]     # eighths
 
 
-def gen_dataset(rng, K=None, M=None, shuffle_samples=None, ident_calib=None, empty_vis=False, steps=None, p_present=None):
+def gen_dataset(rng, K=None, M=None, shuffle_samples=None, ident_calib=None, empty_vis=False, steps=None, p_present=None, twins=None):
     used = set()
     K = rng.randint(1, 8) if K is None else K
     M = rng.randint(0, 6) if M is None else M
@@ -168,10 +168,59 @@ def gen_dataset(rng, K=None, M=None, shuffle_samples=None, ident_calib=None, emp
             a["prev"] = chain[i - 1]["token"] if i else ""
             a["next"] = chain[i + 1]["token"] if i + 1 < len(chain) else ""
         anns += chain
+    if twins is None:
+        twins = rng.random() < 0.5
+    if twins and len(insts) >= 2:
+        # two instances of ONE category whose annotations carry DIFFERENT attribute lists (in the same sample where both are annotated, and
+        # changing from sample to sample within an instance): a converter / loader that remembers a label per category name, per category
+        # token or per instance hands one annotation's attributes to another
+        if not attrs:
+            attrs.append({"token": _tok(rng, used), "name": rng.choice(ATTR_NAMES)})
+        insts[1]["category"] = insts[0]["category"]
+        first, last = attrs[0]["token"], attrs[-1]["token"]
+        k = 0
+        for a in anns:
+            if a["instance"] == insts[0]["token"]:
+                a["attrs"] = [first] if k % 2 == 0 else []
+                k += 1
+            elif a["instance"] == insts[1]["token"]:
+                a["attrs"] = [last, first] if len(attrs) > 1 else []
+                if k % 3 == 2:
+                    a["attrs"] = list(reversed(a["attrs"]))
     rng.shuffle(anns)
     rng.shuffle(insts)
     return {"samples": samples, "sample_data": sds, "ego_pose": egos, "calibrated_sensor": calibs, "sensor": sensors,
             "ann": anns, "instance": insts, "category": cats, "attribute": attrs, "visibility": vis}
+
+
+def alias_tokens(A, B, rng):
+    """Second dataset B of a load of several paths REUSES tokens of dataset A for other things (category / attribute / visibility /
+    instance tokens are only unique within one dataset directory), and one of its categories carries a NAME that A's annotations use:
+    anything remembered per token or per name from one dataset to the next (module-level or on the shared converter) shows."""
+    def remap(table, atable, refs):
+        m = {}
+        for b, a in zip(table, atable):
+            if a["token"] not in {x["token"] for x in table}:
+                m[b["token"]] = a["token"]
+        for b in table:
+            b["token"] = m.get(b["token"], b["token"])
+        for rows, key in refs:
+            for r in rows:
+                if isinstance(r[key], list):
+                    r[key] = [m.get(t, t) for t in r[key]]
+                else:
+                    r[key] = m.get(r[key], r[key])
+    remap(B["category"], A["category"], [(B["instance"], "category")])
+    remap(B["attribute"], list(reversed(A["attribute"])), [(B["ann"], "attrs")])
+    remap(B["visibility"], list(reversed(A["visibility"])), [(B["ann"], "vis")])
+    remap(B["instance"], A["instance"], [(B["ann"], "instance")])
+    remap(B["calibrated_sensor"], A["calibrated_sensor"], [(B["sample_data"], "cs")])
+    remap(B["ego_pose"], A["ego_pose"], [(B["sample_data"], "ego")])
+    remap(B["samples"], A["samples"], [(B["sample_data"], "sample"), (B["ann"], "sample"), (B["samples"], "prev"), (B["samples"], "next")])
+    used_names = [c["name"] for c in A["category"] if any(i["category"] == c["token"] for i in A["instance"])]
+    if used_names and B["category"]:
+        B["category"][0]["name"] = used_names[-1]
+    B["aliased"] = True
 
 
 # ------------------------------------------------------------------------------------------------
@@ -672,6 +721,37 @@ def oracle_config(ds, task, frame, merge, o):
     return None
 
 
+def _cat_attr_lists(ds):
+    """category name (as the converter sees it: lower-cased) -> list of (sample token, attribute name list) of its annotations"""
+    cat = {c["token"]: c["name"] for c in ds["category"]}
+    inst = {i["token"]: i for i in ds["instance"]}
+    attr = {a["token"]: a["name"] for a in ds["attribute"]}
+    out = {}
+    for a in ds["ann"]:
+        try:
+            out.setdefault(cat[inst[a["instance"]]["category"]].lower(), []).append((a["sample"], [attr[t] for t in a["attrs"]]))
+        except KeyError:
+            pass
+    return out
+
+
+def same_category_other_attributes(case):
+    """which of the three situations the case contains (evidence only)"""
+    out = set()
+    A = _cat_attr_lists(case["ds"])
+    for rows in A.values():
+        for i, (s1, l1) in enumerate(rows):
+            for s2, l2 in rows[i + 1:]:
+                if l1 != l2:
+                    out.add("same_frame" if s1 == s2 else "later_frame")
+    if case.get("extra") is not None and case.get("multi") and case.get("share_converter") and len(set(case["multi"]["paths"])) > 1:
+        B = _cat_attr_lists(case["extra"])
+        for name in set(A) & set(B):
+            if any(l1 != l2 for _, l1 in A[name] for _, l2 in B[name]):
+                out.add("later_dataset_through_one_converter")
+    return out
+
+
 def cross_frame(ds, configs, obs):
     """the same dataset loaded in both frames: same frames, ids, labels in the same order"""
     by = {}
@@ -779,6 +859,8 @@ class LoadCorr(Corr):
             if fault is None and (len(out) < 2 or rng.random() < 0.5):
                 # one configuration loads several dataset paths (a second, small dataset B; A twice; B first)
                 case["extra"] = gen_dataset(rng, K=rng.randint(1, 3), M=rng.randint(0, 3))
+                if rng.random() < 0.6:
+                    alias_tokens(ds, case["extra"], rng)
                 case["multi"] = {"config": rng.randrange(len(configs)),
                                  "paths": rng.choice([["A", "B"], ["B", "A"], ["A", "A"], ["A", "B", "A"], ["A", "B"]])}
             out.append(case)
@@ -865,9 +947,26 @@ class LoadCorr(Corr):
              "table_order_differs_from_time_order": 0, "sensors_per_dataset": {}, "registered_category": 0, "unregistered_category": 0,
              "frame_id_argument": {}, "loads_of_several_paths": {}, "frames_checked_in_loads_of_several_paths": 0,
              "cases_with_one_converter_for_all_loads": 0, "of_them_counting_labels": 0,
-             "loaded_velocity": {"None": 0, "estimated": 0}}
+             "loaded_velocity": {"None": 0, "estimated": 0},
+             "cases_with_two_annotations_of_one_category_name_and_different_attribute_lists": {"same_frame": 0, "later_frame": 0,
+                                                                                               "later_dataset_through_one_converter": 0},
+             "second_dataset_reusing_tokens_of_the_first": 0, "sample_spacing_1us": 0,
+             "base_link_objects_loaded_under_an_ego_pose_with_roll_or_pitch": 0}
         for c, ob in zip(cases, obs):
             ds = c["ds"]
+            tw = same_category_other_attributes(c)
+            for k in tw:
+                d["cases_with_two_annotations_of_one_category_name_and_different_attribute_lists"][k] += 1
+            d["second_dataset_reusing_tokens_of_the_first"] += bool((c.get("extra") or {}).get("aliased"))
+            tss = sorted(s["timestamp"] for s in ds["samples"])
+            d["sample_spacing_1us"] += any(b - a == 1 for a, b in zip(tss, tss[1:]))
+            if not c["fault"]:
+                for (t, f, m) in c["configs"]:
+                    if f == "base_link":
+                        for s in ds["samples"]:
+                            rec = lidar_records(ds, s["token"])
+                            if rec and (rec[0]["q"][1] or rec[0]["q"][2]):
+                                d["base_link_objects_loaded_under_an_ego_pose_with_roll_or_pitch"] += sum(1 for a in ds["ann"] if a["sample"] == s["token"])
             for form in c.get("fid_forms") or []:
                 d["frame_id_argument"][form] = d["frame_id_argument"].get(form, 0) + 1
             if c.get("share_converter"):
@@ -950,7 +1049,12 @@ class C16(Prop):
             "merge flag; the frame_id argument is passed as a FrameID, a list or a tuple of one FrameID; in 60% of the cases ONE LabelConverter per "
             "(task, merge) serves all loads of the case (half of them counting labels, the configuration classes' default); in half of the "
             "well-formed cases one configuration loads SEVERAL paths (A+B, B+A, A+A, A+B+A with a second dataset B of 1-3 samples): the oracle "
-            "demands the frames of every dataset, each as if loaded alone, in the order of the paths (the model sees A's share); boundary stream: sample spacing exactly 3.15 s +- 1 us, > 6 preceding samples, empty visibility table, no objects, single "
+            "demands the frames of every dataset, each as if loaded alone, in the order of the paths (the model sees A's share); in 60% of those loads "
+            "the second dataset REUSES the first one's category / attribute / visibility / instance / calibrated-sensor / ego-pose / sample tokens "
+            "for other records and names one of its categories like a category the first dataset annotates (nothing may be remembered per "
+            "token or per name from one dataset to the next); in half of the datasets two instances share ONE category and their annotations "
+            "carry different attribute lists, in the same sample and changing from sample to sample (same frame / later frame / later dataset "
+            "through one converter: counted in the distribution); sample spacings include 1 us; boundary stream: sample spacing exactly 3.15 s +- 1 us, > 6 preceding samples, empty visibility table, no objects, single "
             "sample; malformed stream (model tie only): 13 single faults -> KeyError/ValueError/DatasetLoadingError. Compared: number/order/names/"
             "timestamps of frames, per-frame object uuids in order, labels, kept names, attributes, sizes (exact), point counts, visibility, positions "
             "and orientations (1e-9, orientation up to sign), frame ids, the stored (BASE_LINK, MAP) matrix and every stored transform, tracking "
